@@ -7,7 +7,8 @@ claimed size: `Reachable f claimed r` says `r` is a `ChunkReader` state that som
 `NextChunk` / `SeekToChunkContaining` calls reaches after `initialize`.
 Helper lemmas live in `Proof/C15Node.lean`, `Proof/C15Resolve.lean`, `Proof/C15Reader.lean`.
 -/
-import WuffsVerif.Proof.C15Reader
+import WuffsVerif.Proof.C15Walk
+import WuffsVerif.Proof.C15Stale
 
 namespace WuffsVerif.Props.C15
 open WuffsVerif.Rac.ChunkReader
@@ -176,6 +177,74 @@ theorem walk_ascending_no_gap {f : File} {claimed : Int} {r : Reader} (hr : Reac
   have w2 := chunk_wellformed (Reachable.next hr) c2 h2
   omega
 
+theorem reachable_landed {f : File} {claimed : Int} {r : Reader} (hr : Reachable f claimed r) :
+    LandedInv r := by
+  induction hr with
+  | opened =>
+    intro he hn
+    exfalso
+    by_cases hc : claimed < 32
+    · simp [openReader, hc, Reader.failed_err] at he
+    cases hfr : findRootNode f claimed.toNat with
+    | error e => simp [openReader, hc, hfr, Reader.failed_err] at he
+    | ok p =>
+      obtain ⟨off, n⟩ := p
+      by_cases hver : (n.version != 1) = true
+      · simp [openReader, hc, hfr, hver, Reader.failed_err] at he
+      · simp [openReader, hc, hfr, hver] at hn
+  | @next r0 hr0 ih =>
+    cases he0 : r0.err with
+    | some e => rw [(sticky_errors r0 e he0).1]; exact ih
+    | none => exact next_landed r0 (reachable_inv hr0 he0).1 he0 ih
+  | @seek r0 d _ ih => exact seek_landed r0 d ih
+
+/-- **walk_contiguous.**  Successive chunks of a walk are contiguous in DSpace: the next chunk
+starts exactly where the previous one ended — whether `NextChunk` continues inside the
+current node, walks down into a sibling branch node, or re-resolves from the root after
+exhausting the node.  (The proof uses path determinism: the descent for any position of a
+leaf element ends on that element, `resolveAt_same`.) -/
+theorem walk_contiguous {f : File} {claimed : Int} {r : Reader} (hr : Reachable f claimed r)
+    (c1 c2 : Chunk) (h1 : r.next.2 = .chunk c1) (h2 : r.next.1.next.2 = .chunk c2) :
+    c2.dLo = c1.dHi := by
+  cases he : r.err with
+  | some e => rw [(sticky_errors r e he).1] at h1; cases h1
+  | none =>
+    obtain ⟨inv, _⟩ := reachable_inv hr he
+    obtain ⟨inv1, he1, _, hn1, hg1, _, _, hsp1, ⟨i1, hel1, _⟩⟩ := (next_good r inv he).chunk c1 h1
+    have hland := reachable_landed (Reachable.next hr) he1 hn1
+    rcases next_chunk_cases r.next.1 inv1 he1 c2 h2 with ⟨_, hlo, _⟩ | ⟨l2, a1, a2, a3, a4, _⟩
+    · rw [hlo, hsp1]
+    · -- re-resolved at b = c1.dHi; suppose the landing element starts before b
+      obtain ⟨p0, l1, hp0, hl1, e1, e2, e3⟩ := hland
+      obtain ⟨linv2, li2, lleaf2, llo2, lhi2⟩ := a3
+      have hninv1 := (inv1.cur hn1).1
+      have hg := isElem_good hninv1 hel1
+      obtain ⟨hi1, hne1, hleaf1, hc1⟩ := hel1
+      have hc2lo : c2.dLo = l2.dBias + l2.node.dPtr l2.nextChunk := by rw [a4]; rfl
+      rw [hc2lo, ← hsp1]
+      rcases Nat.lt_or_ge (l2.dBias + l2.node.dPtr l2.nextChunk) r.next.1.seekPos with hlt | hge
+      · exfalso
+        -- x = b - 1 lies in both leaf elements, so both descents end at the same place
+        have hb : r.next.1.seekPos = c1.dHi := hsp1
+        have s2 := resolveAt_same r.next.1 inv1 r.next.1.seekPos (r.next.1.seekPos - 1) a2 l2 a1
+          l2.nextChunk li2 lleaf2 (by omega) (by omega)
+        have s1 := resolveAt_same r.next.1 inv1 p0 (r.next.1.seekPos - 1) hp0 l1 hl1
+          i1 (by rw [e1]; exact hi1) (by rw [e1]; exact hleaf1)
+          (by rw [e1, e3]; have := hg.2.1; have := hg.1.2.2.1; omega)
+          (by rw [e1, e3]; have := hg.2.2; omega)
+        rw [s2] at s1
+        have heq : l2 = { l1 with nextChunk := i1 } := by
+          have h3 : ({ l2 with nextChunk := l2.nextChunk } : Landing) = l2 := rfl
+          rw [h3] at s1
+          exact Outcome.ok.inj s1
+        have hnode : l2.node = r.next.1.node := by rw [heq]; exact e1
+        have hdb : l2.dBias = r.next.1.dBias := by rw [heq]; exact e3
+        have hnc : l2.nextChunk = i1 := by rw [heq]
+        rw [hnode, hdb, hnc] at lhi2
+        have := hg.2.2
+        omega
+      · omega
+
 /-- **walk_ends_at_dsize.**  If a chunk is followed by `io.EOF`, the chunk ends exactly at the
 decompressed size reported by `DecompressedSize`. -/
 theorem walk_ends_at_dsize {f : File} {claimed : Int} {r : Reader} (hr : Reachable f claimed r)
@@ -185,7 +254,7 @@ theorem walk_ends_at_dsize {f : File} {claimed : Int} {r : Reader} (hr : Reachab
   | none =>
     obtain ⟨inv, _⟩ := reachable_inv hr he
     obtain ⟨inv1, he1, sf1, _, hg, _, _, h3, _⟩ := (next_good r inv he).chunk c h1
-    obtain ⟨_, _, _, h4, h5⟩ := (next_good r.next.1 inv1 he1).eof h2
+    obtain ⟨_, _, _, h4, h5, _⟩ := (next_good r.next.1 inv1 he1).eof h2
     have := hg.2.2.2
     rw [sf1.2.2.1] at h4
     omega
@@ -194,8 +263,189 @@ theorem walk_ends_at_dsize {f : File} {claimed : Int} {r : Reader} (hr : Reachab
 theorem eof_only_at_end {f : File} {claimed : Int} {r : Reader} (hr : Reachable f claimed r)
     (he : r.err = none) (h : r.next.2 = .eof) : r.dsize ≤ r.seekPos ∧ r.next.1.err = none := by
   obtain ⟨inv, _⟩ := reachable_inv hr he
-  obtain ⟨_, h2, _, h4, h5⟩ := (next_good r inv he).eof h
+  obtain ⟨_, h2, _, h4, h5, _⟩ := (next_good r inv he).eof h
   exact ⟨by omega, h2⟩
+
+/-! ## no panic, determinism -/
+
+/-- **no_panic.**  No reachable state carries the model's "Go run-time panic" error, so no
+method call ever returns it: `findChunkContaining`'s `panic("could not find containing
+chunk")` is unreachable, for every file. -/
+theorem no_panic {f : File} {claimed : Int} {r : Reader} (hr : Reachable f claimed r) :
+    r.err ≠ some .panic ∧ r.next.2 ≠ .err .panic := by
+  have herr : ∀ {r : Reader}, Reachable f claimed r → r.err ≠ some .panic := by
+    intro r hr
+    induction hr with
+    | opened => exact openReader_err_ne_panic f claimed
+    | @next r0 hr0 ih =>
+      cases he0 : r0.err with
+      | some e => rw [(sticky_errors r0 e he0).1]; exact ih
+      | none =>
+        have g := next_good r0 (reachable_inv hr0 he0).1 he0
+        intro hp
+        cases hres : r0.next.2 with
+        | chunk c => have := (g.chunk c hres).2.1; rw [this] at hp; cases hp
+        | eof => have := (g.eof hres).2.1; rw [this] at hp; cases hp
+        | err e =>
+          have := g.err e hres
+          rw [this] at hp
+          cases hp
+          exact g.no_panic hres
+        | spin => exact g.no_spin hres
+    | @seek r0 d _ ih =>
+      unfold Reader.seek
+      cases he0 : r0.err with
+      | some e => simp only; exact ih
+      | none =>
+        simp only
+        by_cases hd : d < 0
+        · simp only [hd, ↓reduceIte]; intro h; cases h
+        · simp only [hd, ↓reduceIte]; intro h; cases h
+  refine ⟨herr hr, ?_⟩
+  cases he : r.err with
+  | some e =>
+    rw [(sticky_errors r e he).1]
+    simp only
+    intro h
+    cases h
+    exact herr hr he
+  | none => exact (next_terminates hr he).2
+
+/-- **decode_deterministic** (chunk level): what `NextChunk` returns after
+`SeekToChunkContaining(d)` depends only on the file, the claimed size and `d` — not on the
+calls made before.  (That the model is a function of the bytes is trivially true in Lean;
+this is the statement with content: no hidden state survives a seek.) -/
+theorem seek_next_deterministic {f : File} {claimed : Int} {r1 r2 : Reader}
+    (h1 : Reachable f claimed r1) (h2 : Reachable f claimed r2)
+    (he1 : r1.err = none) (he2 : r2.err = none) (d : Int) :
+    (r1.seek d).1.next.2 = (r2.seek d).1.next.2 := by
+  obtain ⟨inv1, sf1⟩ := reachable_inv h1 he1
+  obtain ⟨inv2, sf2⟩ := reachable_inv h2 he2
+  by_cases hd : d < 0
+  · have e1 : (r1.seek d).1.err = some .negSeek := by
+      unfold Reader.seek; rw [he1]; simp only [hd, ↓reduceIte]
+    have e2 : (r2.seek d).1.err = some .negSeek := by
+      unfold Reader.seek; rw [he2]; simp only [hd, ↓reduceIte]
+    rw [(sticky_errors _ _ e1).1, (sticky_errors _ _ e2).1]
+  · rw [next_after_seek r1 inv1 he1 d hd, next_after_seek r2 inv2 he2 d hd]
+    apply resolvedValue_congr
+    · exact ⟨sf1.1.trans sf2.1.symm, sf1.2.1.trans sf2.2.1.symm, sf1.2.2.1.trans sf2.2.2.1.symm,
+        sf1.2.2.2.1.trans sf2.2.2.2.1.symm, sf1.2.2.2.2.trans sf2.2.2.2.2.symm⟩
+    · rfl
+
+/-- **walk_equals_seek.**  The chunk that a walk returns is the chunk a seek to any of its
+offsets returns: sequential and random access see the same chunk stream. -/
+theorem walk_equals_seek {f : File} {claimed : Int} {r : Reader} (hr : Reachable f claimed r)
+    (c : Chunk) (h : r.next.2 = .chunk c) (x : Nat) (hx1 : c.dLo ≤ x) (hx2 : x < c.dHi) :
+    (r.next.1.seek (x : Int)).1.next.2 = .chunk c := by
+  cases he : r.err with
+  | some e => rw [(sticky_errors r e he).1] at h; cases h
+  | none =>
+    obtain ⟨inv, _⟩ := reachable_inv hr he
+    obtain ⟨inv1, he1, _, hn1, hg1, _, _, _, ⟨i1, hel1, _⟩⟩ := (next_good r inv he).chunk c h
+    obtain ⟨p0, l1, hp0, hl1, e1, e2, e3⟩ := reachable_landed (Reachable.next hr) he1 hn1
+    have hninv1 := (inv1.cur hn1).1
+    have hg := isElem_good hninv1 hel1
+    obtain ⟨hi1, hne1, hleaf1, hc1⟩ := hel1
+    have s1 := resolveAt_same r.next.1 inv1 p0 x hp0 l1 hl1 i1 (by rw [e1]; exact hi1)
+      (by rw [e1]; exact hleaf1) (by rw [e1, e3]; have := hg.2.1; omega)
+      (by rw [e1, e3]; have := hg.2.2; omega)
+    have hx : ¬ ((x : Int) < 0) := by omega
+    rw [next_after_seek r.next.1 inv1 he1 (x : Int) hx]
+    simp only [Int.toNat_natCast]
+    unfold resolvedValue
+    have hlt : ¬ (x ≥ r.next.1.dsize) := by
+      have := hg1.2.2.2
+      have h3 : r.next.1.dsize = r.dsize := by
+        have := (next_good r inv he).chunk c h
+        exact this.2.2.1.2.2.1
+      omega
+    simp only [hlt, ↓reduceIte]
+    have hr' : Reader.resolve { r.next.1 with needResolve := true, seekPos := x } = resolveAt r.next.1 x := rfl
+    rw [hr', s1]
+    simp only
+    rw [hc1, e1, e2, e3]
+
+/-! ## no out-of-range index, no stale bytes, no overflow -/
+
+/-- **no_index_oob.**  (1) For a node of arity `a ≤ 255` (a byte), every byte index the
+accessors compute for an element `i < a`, including the 8-byte windows that `u48LE`/`u64LE`
+slice, is below `nodeSize a ≤ 4096`: no Go index panic.  (2) If byte 3 of the buffer is the
+arity that was loaded (`size = nodeSize arity`, which `NodeInv.consistent` records for every
+node the reader uses), then `valid`, `codec`, `findChunkContaining`, `chunk` and the
+accessors used by the descent do not depend on the stale bytes of `currNode` beyond the
+node: replacing them by anything (`withStale s`) changes nothing.  Without the repair
+C15-stale-root-arity this fails (directed case `stale-root` of the harness). -/
+theorem no_index_oob :
+    (∀ a i, a ≤ 255 → i < a →
+      nodeSize a ≤ 4096 ∧ 8 * i + 7 < nodeSize a ∧ 8 * (i + 1) + 7 < nodeSize a ∧
+      8 * a + 8 + 8 * i + 7 < nodeSize a ∧ 16 * a + 8 + 7 < nodeSize a) ∧
+    (∀ (n : Node) (s : Nat → Nat), n.size = nodeSize n.arity →
+      (n.withStale s).valid = n.valid ∧ (n.withStale s).codec = n.codec ∧
+      (n.withStale s).arity = n.arity ∧
+      (n.withStale s).cPtrMax = n.cPtrMax ∧ (n.withStale s).dPtrMax = n.dPtrMax ∧
+      (n.withStale s).version = n.version ∧ (n.withStale s).codecByte = n.codecByte ∧
+      (∀ d dBias, (n.withStale s).findChunkContaining d dBias = n.findChunkContaining d dBias) ∧
+      (∀ i cBias dBias, i < n.arity →
+        (n.withStale s).chunk i cBias dBias = n.chunk i cBias dBias ∧
+        (n.withStale s).isLeaf i = n.isLeaf i ∧ (n.withStale s).dSize i = n.dSize i ∧
+        (n.withStale s).cPtr i = n.cPtr i ∧ (n.withStale s).sTag i = n.sTag i ∧
+        (n.withStale s).dPtr i = n.dPtr i)) := by
+  refine ⟨?_, ?_⟩
+  · intro a i ha hi
+    have := index_bounds a i ha hi
+    exact ⟨this.1, this.2.1, this.2.2.1, this.2.2.2.1, this.2.2.2.2.1⟩
+  · intro n s hc
+    refine ⟨n.valid_ws s hc, n.codec_ws s hc, n.arity_ws s hc, n.cPtrMax_ws s hc, n.dPtrMax_ws s hc,
+      n.version_ws s hc, n.codecByte_ws s hc, fun d dBias => n.find_ws s hc d dBias, ?_⟩
+    intro i cBias dBias hi
+    exact ⟨n.chunk_ws s hc i cBias dBias hi, n.isLeaf_ws s hc i hi, n.dSize_ws s hc i hi,
+      n.cPtr_ws s hc i hi, n.sTag_ws s hc i hi, n.dPtr_ws s hc i (by omega)⟩
+
+/-- **no_overflow.**  Sizes are below `2^48` and every range bound of a returned chunk is
+below `2^49`, so the `int64` arithmetic of the Go code (sums of two such values, plus
+`CLen * 1024 < 2^18`) never wraps: modelling `int64` by naturals loses nothing. -/
+theorem no_overflow {f : File} {claimed : Int} {r : Reader} (hr : Reachable f claimed r)
+    (c : Chunk) (hc : r.next.2 = .chunk c) :
+    r.csize < 2 ^ 48 ∧ r.dsize < 2 ^ 48 ∧
+    c.cpLo < 2 ^ 49 ∧ c.cpHi < 2 ^ 49 ∧ c.csLo < 2 ^ 49 ∧ c.csHi < 2 ^ 49 ∧
+    c.ctLo < 2 ^ 49 ∧ c.ctHi < 2 ^ 49 ∧ c.dLo < 2 ^ 49 ∧ c.dHi < 2 ^ 49 := by
+  cases he : r.err with
+  | some e => rw [(sticky_errors r e he).1] at hc; cases hc
+  | none =>
+    obtain ⟨inv, sf⟩ := reachable_inv hr he
+    have hcs : r.csize < 2 ^ 48 := by
+      have he0 : (openReader f claimed).err = none := by
+        cases h0 : (openReader f claimed).err with
+        | none => rfl
+        | some e0 =>
+          -- a failed open stays failed: `r.err` could not be `none`
+          exfalso
+          have hall : ∀ {q : Reader}, Reachable f claimed q → q.err = some e0 := by
+            intro q hq
+            induction hq with
+            | opened => exact h0
+            | @next q0 _ ih => rw [(sticky_errors q0 e0 ih).1]; exact ih
+            | @seek q0 d _ ih => rw [(sticky_errors q0 e0 ih).2.1 d]; exact ih
+          rw [hall hr] at he; cases he
+      have := openReader_csize_lt f claimed he0
+      rw [sf.2.1]; exact this
+    have hds : r.dsize < 2 ^ 48 := by
+      obtain ⟨root, _, _, hd, _⟩ := inv.root
+      rw [← hd]; exact root.dPtrMax_lt
+    obtain ⟨inv1, _, sf1, hn1, hg, _, _, _, ⟨i, hel, _⟩⟩ := (next_good r inv he).chunk c hc
+    have ninv := (inv1.cur hn1).1
+    obtain ⟨_, _, _, hce⟩ := hel
+    have hco := ninv.coff
+    rw [sf1.2.1] at hco
+    have h2 := r.next.1.node.cOffRange_lt (r.next.1.node.sTag i) r.next.1.cBias r.csize hco
+    have h3 := r.next.1.node.cOffRange_lt (r.next.1.node.tTag i) r.next.1.cBias r.csize hco
+    have e2 : c.csLo = (r.next.1.node.cOffRange (r.next.1.node.sTag i) r.next.1.cBias).1 := by rw [hce]; rfl
+    have e3 : c.csHi = (r.next.1.node.cOffRange (r.next.1.node.sTag i) r.next.1.cBias).2 := by rw [hce]; rfl
+    have e4 : c.ctLo = (r.next.1.node.cOffRange (r.next.1.node.tTag i) r.next.1.cBias).1 := by rw [hce]; rfl
+    have e5 : c.ctHi = (r.next.1.node.cOffRange (r.next.1.node.tTag i) r.next.1.cBias).2 := by rw [hce]; rfl
+    obtain ⟨g1, g2, g3, g4⟩ := hg
+    refine ⟨hcs, hds, by omega, by omega, by omega, by omega, by omega, by omega, by omega, by omega⟩
 
 /-! ## non-vacuity: a concrete two-level file (root at the end, one branch child) -/
 
@@ -213,6 +463,15 @@ def selfLoopFile : File := File.ofList
 
 example : (openReader exFile 100).err = none ∧ (openReader exFile 100).dsize = 15 := by
   decide +kernel
+
+/-- the root node of `exFile` (at offset 52): hypotheses of `findChunkContaining_correct` and of
+`no_index_oob` (2) hold for it -/
+def exRoot : Node := { file := exFile, off := 52, size := 48 }
+example : exRoot.valid = true ∧ exRoot.size = nodeSize exRoot.arity ∧ exRoot.dPtrMax = 15 ∧
+    exRoot.findChunkContaining 12 0 = some 1 ∧ exRoot.findChunkContaining 3 0 = some 0 := by
+  decide +kernel
+/-- a walk: the hypotheses of `walk_contiguous`, `walk_ends_at_dsize`, `walk_equals_seek` hold -/
+example : Reachable exFile 100 (openReader exFile 100).next.1 := .next .opened
 example : (openReader exFile 100).next.2 =
     .chunk ⟨0, 4, 1, 100, 100, 100, 100, 100, 255, 255, 0⟩ := by decide +kernel
 example : (openReader exFile 100).next.1.next.2 =
